@@ -1284,3 +1284,80 @@ def retried_functions_rerunnable(ctx, rule):
                    ctx.loc(f, bad[0] if bad else None))
     if n < 10:
         raise AnalysisError('only %d functions with retry_on_db_error' % n)
+
+
+def clause_getters_agree(ctx, rule):
+    """DirectWorkflowSpec.get_on_{success,error,complete,skip}_clause: the
+    task's own clause when it names next tasks, otherwise the task-defaults
+    clause without the task itself, otherwise nothing.  Each of the four
+    copies is evaluated over every combination of (own clause present, own
+    clause names next tasks, task-defaults present, defaults clause
+    present): a publish-only own clause must still fall back to the
+    defaults, and own transitions must never be replaced by them."""
+    from mstatic.rules import dt
+    prog, sd = ctx.prog, ctx.sd
+    cls = 'mistral.lang.v2.workflows.DirectWorkflowSpec'
+    for kind in ('success', 'error', 'complete', 'skip'):
+        f = prog.func('%s.get_on_%s_clause' % (cls, kind))
+        g = 'get_on_%s' % kind
+        own = [x for x in own_nodes(f.node) if isinstance(x, ast.Assign) and
+               isinstance(x.targets[0], ast.Name) and
+               isinstance(x.value, ast.Call) and U.call_name(x.value) == g
+               and 'get_task' in norm(x.value, 200)]
+        dfl = [x for x in own_nodes(f.node) if isinstance(x, ast.Assign) and
+               isinstance(x.targets[0], ast.Name) and
+               norm(x.value) == 'self.get_task_defaults()']
+        rm = [c for c in own_nodes(f.node) if isinstance(c, ast.Call) and
+              U.call_name(c) == '_remove_task_from_clause']
+        if len(own) != 1 or len(dfl) != 1 or len(rm) != 1:
+            raise AnalysisError('clause getter %s: anchors lost' % f.qname)
+        oc, td = own[0].targets[0].id, dfl[0].targets[0].id
+        K1 = dt.text(own[0].value)
+        K2 = '%s.get_next()' % oc
+        K3 = 'self.get_task_defaults()'
+        K4 = '%s.%s()' % (td, g)
+        K5 = dt.text(rm[0])
+        okrm = [norm(a, 200) for a in rm[0].args] == [
+            '%s.%s().get_next()' % (td, g), f.params[1]]
+        rule.check(okrm, ctx.construct(f, rm[0], extra='defaults without '
+                                       'the task itself'),
+                   'the fall-back is not the task-defaults clause of the same '
+                   'kind with the task itself removed', ctx.loc(f, rm[0]))
+        res = [x.targets[0].id for x in own_nodes(f.node)
+               if isinstance(x, ast.Assign) and
+               isinstance(x.targets[0], ast.Name) and x.value is rm[0]]
+        if len(res) != 1:
+            raise AnalysisError('clause getter %s: result variable' % f.qname)
+        t = dt.Table(ctx, f, [(K1, (None, 'OBJ')), (K2, ((), ('own',))),
+                              (K3, (None, 'OBJ')), (K4, (None, 'OBJ')),
+                              (K5, (('def',),))],
+                     extra_vars=[(res[0], ((), ('own',), ('def',))),
+                                 (oc, (None, 'OBJ')), (td, (None, 'OBJ'))],
+                     inline_exclude=(oc, td, res[0]))
+        bad = []
+        n_ret = 0
+        for n in t.cfg.nodes:
+            if not (n.kind == 'stmt' and isinstance(n.ast, ast.Return)):
+                continue
+            for v in t.full_at(n):
+                n_ret += 1
+                d = dict(zip(t.ks, v))
+                got = t.ev(n.ast.value, v)
+                if d[K1] is not None and d[K2]:
+                    exp = ('own',)
+                elif d[K3] is not None and d[K4] is not None:
+                    exp = ('def',)
+                else:
+                    exp = ()
+                if got != exp and not (exp == () and not got):
+                    bad.append((d, got, exp))
+        rule.check(not bad and n_ret > 0,
+                   ctx.construct(f, extra='own transitions, else the '
+                                 'task-defaults'),
+                   'the %s transitions of a task are not "its own when it '
+                   'names next tasks, otherwise the task-defaults ones" '
+                   '(e.g. own clause %s, own next %s, defaults %s/%s -> %s, '
+                   'expected %s)' % ((kind,) + ((
+                       bad[0][0][K1], bad[0][0][K2], bad[0][0][K3],
+                       bad[0][0][K4], bad[0][1], bad[0][2]) if bad
+                       else ('',) * 6)), ctx.loc(f))
